@@ -54,13 +54,20 @@ def byValue (p : Policy) (client : Str) (outer : Params) (ro : Option RO) : Res 
 
 /-! ### PAR -/
 
+structure ParEntry where
+  urn : Nat
+  client : Str                             -- the client that pushed (and was authenticated)
+  params : Params
+  expiresAt : Nat                          -- push time + the announced lifetime
+  deriving Repr, DecidableEq
+
 structure ParSt where
   next : Nat := 0                          -- source of fresh URNs (uuid4)
-  db : List (Nat × Str × Params) := []     -- urn ↦ (pushing client, stored request)
+  db : List ParEntry := []
   now : Nat := 0
 
 inductive ParOp where
-  | push (client : Str) (ps : Params)      -- authenticated push of a verified request
+  | push (client : Str) (ps : Params) (ttl : Nat)   -- authenticated push of a verified request; `ttl` is announced as expires_in
   | redeem (client : Str) (urn : Nat)      -- authorization request with request_uri=urn, carrying client_id
   | tick (n : Nat)
 
@@ -72,10 +79,16 @@ inductive ParOut where
   deriving Repr, DecidableEq
 
 def parStep (s : ParSt) : ParOp → ParSt × ParOut
-  | .push client ps => ({ s with next := s.next + 1, db := s.db ++ [(s.next, client, ps)] }, .urn s.next)
-  | .redeem _client u =>
-    match s.db.find? (·.1 = u) with
-    | some e => ({ s with db := s.db.filter (·.1 ≠ u) }, .proceeds e.2.1 e.2.2)   -- one-time: deleted; the stored request replaces the incoming one
+  | .push client ps ttl =>
+    ({ s with next := s.next + 1, db := s.db ++ [{ urn := s.next, client := client, params := ps, expiresAt := s.now + ttl }] }, .urn s.next)
+  | .redeem client u =>
+    match s.db.find? (·.urn = u) with
+    | some e =>
+      -- one-time: the entry is deleted whatever happens next
+      let s' := { s with db := s.db.filter (·.urn ≠ u) }
+      if e.expiresAt < s.now then (s', .refused)            -- after the fix for F-C16-c: the announced lifetime is enforced
+      else if e.client ≠ client then (s', .refused)         -- after the fix for F-C16-d: only the pushing client
+      else (s', .proceeds e.client e.params)                -- the stored request replaces the incoming one
     | none => (s, .refused)
   | .tick n => ({ s with now := s.now + n }, .ok)
 
